@@ -65,9 +65,11 @@ namespace occa {
   }
 
   memory& memory::swap(memory &m) {
-    modeMemory_t *modeMemory_ = modeMemory;
-    modeMemory   = m.modeMemory;
-    m.modeMemory = modeMemory_;
+    // Each handle is linked in the reference ring of the object it points to,
+    // so the handles have to change rings together with the pointers
+    memory tmp(m);
+    m = *this;
+    *this = tmp;
     return *this;
   }
 
